@@ -17,6 +17,12 @@ package ice
 //                                     enabled: the next gather adds a passive TCP host candidate over a real tcpPacketConn
 //   tcppeer <A|B> <k>                 a TCP client connects to the mux and sends k framed binding requests for the agent's ufrag
 //   tcpsend <A|B> <i> <k>             client i sends k more frames
+//   turn <A|B> <udp|tcp|tls|dtls> <stage> [<types>]   relay gathering against a STALLED TURN server (see vcStall): the agent gets one
+//                                     turn:/turns: URL of that transport flavour and candidate types <types> (letters h s r, default hr);
+//                                     stage: silent = the server is reached (UDP socket / TCP connection / DialUDP) but never answers
+//                                     (allocation request, TLS ClientHello, DTLS ClientHello swallowed); dial = DialTCP does not
+//                                     return before the session ends (tcp, tls); dial<ms> = DialTCP fails after <ms> virtual ms;
+//                                     late<ms> = DialTCP succeeds after <ms> virtual ms, the server then stays silent
 //   remote <A|B> <addr>               AddRemoteCandidate(host candidate at addr)
 //   start <A|B> <ctl>                 startConnect          dial <A|B> / accept <A|B>: Dial / Accept (blocking)
 //   read <A|B>  write <A|B> <len>  await <A|B>              blocking API calls, each in its own goroutine
@@ -29,6 +35,10 @@ package ice
 //   adv <ms>   flush <rounds>         virtual time; deliver all in-flight datagrams
 //   end                               release handlers, GracefulClose every agent, advance by the bound, census
 //   r1 <n>                            (outside sessions) n trials of the scenario behind modelling fact R1
+//   coverage                          (outside sessions, last op of a generated run) how often the run reached the situations the
+//                                     generator aims at: agents Connected, a Conn.Write parked in a socket, a full TCP receive queue,
+//                                     a TURN control connection stalled after the agent wrote to it; the driver rejects a 0
+//                                     (a change of the shared hub once made every session silently stop connecting)
 // output of every op: t=<ms>;E[<events>];A{<digest>};B{<digest>}   (see vcSession.digest / vcRec)
 // a session whose id starts with "m" is checked by the spec monitor only (its environment lies outside the model's
 // assumptions: slow socket Close, writes nothing aborts, the TCP mux); "w" is the deadlock witness
@@ -55,7 +65,9 @@ import (
 func init() { vComponents["close"] = &vComp{gen: vcGen, exec: vcExec} }
 
 // virtual-time bound on every call (see notes/C08.md "bound"): no timer lies on the Close path of a host-only
-// agent; the longest timer a Close can wait for in any configuration is the STUN gather timeout (5 s).
+// agent; the timers a Close can wait for are those of the gather cycle it waits for: the STUN gather timeout (5 s)
+// and, with a TURN URL, one TURN transaction that is never answered (7 transmissions, RTO 200 ms doubling up to
+// 1.6 s = 7.8 s; Allocate is not cancellable), after a dial of at most 2.5 s in the generated sessions.
 const vcBoundMs = 10000
 
 // ---- recorder ----
@@ -119,6 +131,8 @@ type vcConn struct {
 	// goroutine waiting for a mutex is not durably blocked — the virtual clock would never advance.
 	slow  bool
 	userW int // Conn.Write calls of the test in flight through this socket
+	rdl    time.Time     // read deadline (a future one ends a blocked read when it passes)
+	dlWake chan struct{} // closed and replaced whenever the read deadline changes
 	cond  *sync.Cond
 	wRel     int  // what releases a blocked write (vcRelDeadline | vcRelClose; 0 = only the environment)
 	rRel     int  // what releases a blocked read
@@ -168,13 +182,45 @@ func (c *vcConn) WriteTo(b []byte, a net.Addr) (int, error) {
 }
 
 func (c *vcConn) ReadFrom(b []byte) (int, net.Addr, error) {
-	select {
-	case d := <-c.ch:
-		return copy(b, d.data), d.from, nil
-	case <-vcChanIf(c.rRel&vcRelClose != 0, c.closed):
-		return 0, nil, io.EOF
-	case <-vcChanIf(c.rRel&vcRelDeadline != 0, c.rel):
-		return 0, nil, os.ErrDeadlineExceeded
+	for {
+		// a read deadline in the future (srflx gathering: stunGatherTimeout) is honoured like a real socket's
+		c.mu.Lock()
+		dl, w := c.rdl, c.dlWake
+		c.mu.Unlock()
+		var tc <-chan time.Time
+		var tm *time.Timer
+		if !dl.IsZero() && c.rRel&vcRelDeadline != 0 {
+			d := time.Until(dl)
+			if d <= 0 {
+				return 0, nil, os.ErrDeadlineExceeded
+			}
+			tm = time.NewTimer(d)
+			tc = tm.C
+		}
+		var d vDgram
+		got, again := false, false
+		var err error
+		select {
+		case d = <-c.ch:
+			got = true
+		case <-vcChanIf(c.rRel&vcRelClose != 0, c.closed):
+			err = io.EOF
+		case <-vcChanIf(c.rRel&vcRelDeadline != 0, c.rel):
+			err = os.ErrDeadlineExceeded
+		case <-w:
+			again = true
+		case <-tc:
+			again = true
+		}
+		if tm != nil {
+			tm.Stop()
+		}
+		switch {
+		case got:
+			return copy(b, d.data), d.from, nil
+		case !again:
+			return 0, nil, err
+		}
 	}
 }
 
@@ -183,8 +229,15 @@ func (c *vcConn) setDL(t time.Time) {
 		c.relOnce.Do(func() { close(c.rel) })
 	}
 }
-func (c *vcConn) SetDeadline(t time.Time) error      { c.setDL(t); return nil }
-func (c *vcConn) SetReadDeadline(t time.Time) error  { c.setDL(t); return nil }
+func (c *vcConn) setRDL(t time.Time) {
+	c.mu.Lock()
+	c.rdl = t
+	close(c.dlWake)
+	c.dlWake = make(chan struct{})
+	c.mu.Unlock()
+}
+func (c *vcConn) SetDeadline(t time.Time) error      { c.setDL(t); c.setRDL(t); return nil }
+func (c *vcConn) SetReadDeadline(t time.Time) error  { c.setDL(t); c.setRDL(t); return nil }
 func (c *vcConn) SetWriteDeadline(t time.Time) error { c.setDL(t); return nil }
 func (c *vcConn) Close() error {
 	c.mu.Lock()
@@ -250,13 +303,20 @@ func (c *vcConn) WriteMsgUDP(b, _ []byte, a *net.UDPAddr) (int, int, error) {
 	return n, 0, err
 }
 
-// vcNet: one interface "eth0" with one IPv4 address; ListenUDP hands out scripted sockets on the hub.
+// vcNet: one interface "eth0" with one IPv4 address; ListenUDP hands out scripted sockets on the hub; the TURN
+// control connections (ListenPacket / DialTCP / DialUDP) reach a stalled server.
 type vcNet struct {
 	transport.Net
 	s     *vcSession
 	owner *vcAgent
 	ip    int
 	nport int
+	// stalled TURN server
+	mu       sync.Mutex
+	stage    string        // "silent" | "dial" | "dial<ms>" | "late<ms>"
+	dialHold chan struct{} // closed at the end of the session: releases DialTCP calls of stage "dial"
+	stalls   []*vcStall
+	ndial    int // DialTCP calls that have not returned
 }
 
 func (n *vcNet) Interfaces() ([]*transport.Interface, error) {
@@ -270,6 +330,165 @@ func (n *vcNet) ListenUDP(network string, la *net.UDPAddr) (transport.UDPConn, e
 }
 func (n *vcNet) ResolveUDPAddr(network, address string) (*net.UDPAddr, error) {
 	return net.ResolveUDPAddr(network, address)
+}
+func (n *vcNet) ResolveTCPAddr(network, address string) (*net.TCPAddr, error) {
+	return net.ResolveTCPAddr(network, address)
+}
+
+func (n *vcNet) newStall(kind string, remote net.Addr) *vcStall {
+	n.mu.Lock()
+	defer n.mu.Unlock()
+	ip, port := vAddr(0, 16*n.ip).IP, 6000+len(n.stalls)
+	c := &vcStall{kind: kind, remote: remote, closed: make(chan struct{}), wake: make(chan struct{})}
+	if kind == "tcp" {
+		c.local = &net.TCPAddr{IP: ip, Port: port}
+	} else {
+		c.local = &net.UDPAddr{IP: ip, Port: port}
+	}
+	n.stalls = append(n.stalls, c)
+	return c
+}
+
+// ListenPacket: the local socket of a turn: URL over UDP; the server never answers.
+func (n *vcNet) ListenPacket(network, address string) (net.PacketConn, error) {
+	return &vcStallUDP{n.newStall("udp", nil)}, nil
+}
+
+// DialUDP: the connected socket of a turns: URL over UDP (DTLS); the server never answers.
+func (n *vcNet) DialUDP(network string, la, ra *net.UDPAddr) (transport.UDPConn, error) {
+	return &vcStallUDP{n.newStall("dtls", ra)}, nil
+}
+
+// DialTCP: the TCP connection of a turn:/turns: URL over TCP.  transport.Net's DialTCP takes no context.
+func (n *vcNet) DialTCP(network string, la, ra *net.TCPAddr) (transport.TCPConn, error) {
+	n.mu.Lock()
+	stage, hold := n.stage, n.dialHold
+	n.ndial++
+	n.mu.Unlock()
+	defer func() { n.mu.Lock(); n.ndial--; n.mu.Unlock() }()
+	switch {
+	case strings.HasPrefix(stage, "late"): // the connection is established late; the server then stays silent
+		time.Sleep(time.Duration(vAtoi(stage[4:])) * time.Millisecond)
+	case strings.HasPrefix(stage, "dial"):
+		if ms := vAtoi(stage[4:]); ms > 0 { // the SYNs are lost: connect fails after the OS's timeout
+			time.Sleep(time.Duration(ms) * time.Millisecond)
+		} else {
+			<-hold
+		}
+		return nil, &net.OpError{Op: "dial", Net: network, Addr: ra, Err: os.ErrDeadlineExceeded}
+	}
+	return &vcStallTCP{n.newStall("tcp", ra)}, nil
+}
+
+// vcStall: one end of a connection to a server that accepted it (or a UDP socket towards it) and stays silent:
+// writes are swallowed, reads block until the connection is closed or its read deadline passes.
+type vcStall struct {
+	kind          string
+	local, remote net.Addr
+	mu            sync.Mutex
+	closed        chan struct{}
+	isClosed      bool
+	rdl           time.Time
+	wake          chan struct{}
+	nw            int // bytes swallowed
+}
+
+func (c *vcStall) Read(b []byte) (int, error) {
+	for {
+		c.mu.Lock()
+		if c.isClosed {
+			c.mu.Unlock()
+			return 0, &net.OpError{Op: "read", Net: c.kind, Err: net.ErrClosed}
+		}
+		dl, w := c.rdl, c.wake
+		c.mu.Unlock()
+		var tc <-chan time.Time
+		var tm *time.Timer
+		if !dl.IsZero() {
+			d := time.Until(dl)
+			if d <= 0 {
+				return 0, &net.OpError{Op: "read", Net: c.kind, Err: os.ErrDeadlineExceeded}
+			}
+			tm = time.NewTimer(d)
+			tc = tm.C
+		}
+		select {
+		case <-w:
+		case <-tc:
+		}
+		if tm != nil {
+			tm.Stop()
+		}
+	}
+}
+
+func (c *vcStall) Write(b []byte) (int, error) {
+	c.mu.Lock()
+	defer c.mu.Unlock()
+	if c.isClosed {
+		return 0, &net.OpError{Op: "write", Net: c.kind, Err: net.ErrClosed}
+	}
+	c.nw += len(b)
+	return len(b), nil
+}
+
+func (c *vcStall) Close() error {
+	c.mu.Lock()
+	defer c.mu.Unlock()
+	if c.isClosed {
+		return &net.OpError{Op: "close", Net: c.kind, Err: net.ErrClosed}
+	}
+	c.isClosed = true
+	close(c.closed)
+	close(c.wake)
+	c.wake = make(chan struct{})
+	return nil
+}
+func (c *vcStall) LocalAddr() net.Addr  { return c.local }
+func (c *vcStall) RemoteAddr() net.Addr { return c.remote }
+func (c *vcStall) SetReadDeadline(t time.Time) error {
+	c.mu.Lock()
+	defer c.mu.Unlock()
+	c.rdl = t
+	close(c.wake)
+	c.wake = make(chan struct{})
+	return nil
+}
+func (c *vcStall) SetWriteDeadline(time.Time) error { return nil }
+func (c *vcStall) SetDeadline(t time.Time) error    { return c.SetReadDeadline(t) }
+func (c *vcStall) SetReadBuffer(int) error          { return nil }
+func (c *vcStall) SetWriteBuffer(int) error         { return nil }
+
+type vcStallTCP struct{ *vcStall }
+
+func (c *vcStallTCP) CloseRead() error                     { return nil }
+func (c *vcStallTCP) CloseWrite() error                    { return nil }
+func (c *vcStallTCP) ReadFrom(r io.Reader) (int64, error)  { return io.Copy(struct{ io.Writer }{c.vcStall}, r) }
+func (c *vcStallTCP) SetLinger(int) error                  { return nil }
+func (c *vcStallTCP) SetKeepAlive(bool) error              { return nil }
+func (c *vcStallTCP) SetKeepAlivePeriod(time.Duration) error { return nil }
+func (c *vcStallTCP) SetNoDelay(bool) error                { return nil }
+
+type vcStallUDP struct{ *vcStall }
+
+func (c *vcStallUDP) ReadFrom(b []byte) (int, net.Addr, error) {
+	n, err := c.Read(b)
+	return n, c.remote, err
+}
+func (c *vcStallUDP) WriteTo(b []byte, _ net.Addr) (int, error) { return c.Write(b) }
+func (c *vcStallUDP) ReadFromUDP(b []byte) (int, *net.UDPAddr, error) {
+	n, err := c.Read(b)
+	ua, _ := c.remote.(*net.UDPAddr)
+	return n, ua, err
+}
+func (c *vcStallUDP) ReadMsgUDP(b, _ []byte) (int, int, int, *net.UDPAddr, error) {
+	n, ua, err := c.ReadFromUDP(b)
+	return n, 0, 0, ua, err
+}
+func (c *vcStallUDP) WriteToUDP(b []byte, _ *net.UDPAddr) (int, error) { return c.Write(b) }
+func (c *vcStallUDP) WriteMsgUDP(b, _ []byte, _ *net.UDPAddr) (int, int, error) {
+	n, err := c.Write(b)
+	return n, 0, err
 }
 
 // ---- agents ----
@@ -292,6 +511,7 @@ type vcAgent struct {
 	net      *vcNet
 	nclosing int // Close / GracefulClose calls made by the test through op `close` / `end` that have not returned
 	nheld    int // handlers of this agent the test holds in mode "block"
+	turn string // "<flavour>:<stage>" once a stalled TURN server has been configured (op turn)
 	// ICE-TCP: a real TCPMuxDefault over a fake listener, scripted TCP clients
 	mux   *TCPMuxDefault
 	lis   *vTcpListener
@@ -313,6 +533,7 @@ func (s *vcSession) newConn(owner *vcAgent, addr int, mode string) *vcConn {
 		slow: strings.Contains(mode, "s"), wRel: vcRelDeadline | vcRelClose, rRel: vcRelDeadline | vcRelClose,
 		rel: make(chan struct{}), pass: make(chan struct{}), rec: s.rec, name: fmt.Sprint(addr)}
 	c.cond = sync.NewCond(&c.mu)
+	c.dlWake = make(chan struct{})
 	switch {
 	case strings.Contains(mode, "D"):
 		c.wRel = vcRelDeadline
@@ -328,9 +549,10 @@ func (s *vcSession) newConn(owner *vcAgent, addr int, mode string) *vcConn {
 		c.rRel = vcRelClose
 	}
 	s.base.hub.mu.Lock()
-	s.base.hub.eps[ua.String()] = []*vEP{ep}
+	// keys as the shared hub uses them (vKey: network + address); every socket address is used once per session
+	s.base.hub.eps[vKey(ua)] = append(s.base.hub.eps[vKey(ua)], ep)
 	s.base.hub.mu.Unlock()
-	vAddrOwner[ua.String()] = owner.h
+	vAddrOwner[vKey(ua)] = owner.h
 	owner.mu.Lock()
 	owner.cands = append(owner.cands, &vcCand{addr: addr, conn: c})
 	owner.mu.Unlock()
@@ -344,6 +566,9 @@ func (s *vcSession) handler(ag *vcAgent, stream int, ev string) {
 	mode, rel := ag.mode[stream], ag.release
 	ag.mu.Unlock()
 	s.rec.add("H%s%d:%s:enter:%s", ag.letter, stream, ev, mode)
+	if stream == 0 && ev == "Connected" {
+		vcCovAdd("connected")
+	}
 	a := ag.h.a
 	hcall := func(kind string, f func() error) {
 		id := s.rec.id()
@@ -390,7 +615,7 @@ func (s *vcSession) newAgent(letter string, ip int) (*vcAgent, error) {
 		return nil, err
 	}
 	ag.h = h
-	ag.net = &vcNet{s: s, owner: ag, ip: ip}
+	ag.net = &vcNet{s: s, owner: ag, ip: ip, dialHold: make(chan struct{})}
 	h.a.net = ag.net // gathering goes through the fake Net (set before any gather starts)
 	a := h.a
 	_ = a.OnConnectionStateChange(func(st ConnectionState) { s.handler(ag, 0, st.String()) })
@@ -448,6 +673,22 @@ func (s *vcSession) stuckCloser(ag *vcAgent) (stuck bool) {
 			vcSkipped++ // statistic `close.skipped-closer`: stays 0 on a tree that satisfies the property
 		}
 	}()
+	if ag.turn != "" {
+		// the stalled TURN server holds the gather cycle (the closer then waits OUTSIDE the loop's Once, for
+		// taskLoopDone): further closers are durably blocked like the first
+		n := ag.net
+		n.mu.Lock()
+		busy := n.ndial > 0
+		for _, c := range n.stalls {
+			c.mu.Lock()
+			busy = busy || !c.isClosed
+			c.mu.Unlock()
+		}
+		n.mu.Unlock()
+		if busy {
+			return false
+		}
+	}
 	for _, k := range ag.cands {
 		k.conn.mu.Lock()
 		held := k.conn.wRel == 0 && k.conn.nblocked > 0
@@ -541,7 +782,31 @@ func (s *vcSession) digest(ag *vcAgent) string {
 				ncl++
 			}
 		}
+		if ag.rbs > 0 && nq >= ag.rbs && nconn > 0 {
+			vcCovAdd("tcpfull")
+		}
 		tcp = fmt.Sprintf(";T=%d:%d:%d:%d:%d", ag.rbs, npc, nq, nconn, ncl)
+	}
+	if ag.turn != "" {
+		// R=<flavour>:<stage>:<control connections opened>:<of which closed>:<of which got bytes from the agent>:<DialTCP calls pending>
+		n := ag.net
+		n.mu.Lock()
+		nc, nh := 0, 0
+		for _, c := range n.stalls {
+			c.mu.Lock()
+			if c.isClosed {
+				nc++
+			}
+			if c.nw > 0 {
+				nh++
+			}
+			c.mu.Unlock()
+		}
+		if nh > nc {
+			vcCovAdd("relaystalled")
+		}
+		tcp += fmt.Sprintf(";R=%s:%d:%d:%d:%d", ag.turn, len(n.stalls), nc, nh, n.ndial)
+		n.mu.Unlock()
 	}
 	return fmt.Sprintf("d=%d;x=%d;K=%s;N=%s;nl=%d;nr=%d%s", vcClosed(a.loop.Done()), x, strings.Join(ks, ","), strings.Join(ns, ","), nl, nr, tcp)
 }
@@ -687,6 +952,48 @@ func (s *vcSession) exec(t []string) string {
 		default:
 			return "bad-op api"
 		}
+	case "turn":
+		if len(t) < 4 {
+			return "bad-op turn"
+		}
+		if ag.turn != "" { // out of context (a shrunk session): no-op
+			break
+		}
+		u := &stun.URI{Host: "10.9.9.9", Port: 3478, Username: "user", Password: "pass"}
+		switch t[2] {
+		case "udp":
+			u.Scheme, u.Proto = stun.SchemeTypeTURN, stun.ProtoTypeUDP
+		case "tcp":
+			u.Scheme, u.Proto = stun.SchemeTypeTURN, stun.ProtoTypeTCP
+		case "tls":
+			u.Scheme, u.Proto = stun.SchemeTypeTURNS, stun.ProtoTypeTCP
+		case "dtls":
+			u.Scheme, u.Proto = stun.SchemeTypeTURNS, stun.ProtoTypeUDP
+		default:
+			return "bad-op turn"
+		}
+		types := "hr"
+		if len(t) > 4 {
+			types = t[4]
+		}
+		var cts []CandidateType
+		for _, l := range types {
+			switch l {
+			case 'h':
+				cts = append(cts, CandidateTypeHost)
+			case 's':
+				cts = append(cts, CandidateTypeServerReflexive)
+			case 'r':
+				cts = append(cts, CandidateTypeRelay)
+			}
+		}
+		// (the agent is at rest: same in-package configuration as `a.net` in newAgent)
+		ag.turn = t[2] + ":" + t[3]
+		ag.net.mu.Lock()
+		ag.net.stage = t[3]
+		ag.net.mu.Unlock()
+		ag.h.a.urls = []*stun.URI{u}
+		ag.h.a.candidateTypes = cts
 	case "tcpmux":
 		if len(t) < 3 {
 			return "bad-op tcpmux"
@@ -796,6 +1103,17 @@ func (s *vcSession) exec(t []string) string {
 		return "bad-op " + t[0]
 	}
 	synctest.Wait()
+	if t[0] == "write" && ag != nil {
+		if p := ag.h.a.getSelectedPair(); p != nil {
+			if k := s.findCand(ag, vAddrID(p.Local.addrPort())); k != nil {
+				k.conn.mu.Lock()
+				if k.conn.userW > 0 && k.conn.nblocked > 0 {
+					vcCovAdd("writeparked")
+				}
+				k.conn.mu.Unlock()
+			}
+		}
+	}
 	return s.render()
 }
 
@@ -841,7 +1159,21 @@ func (s *vcSession) finish() string {
 	synctest.Wait()
 	time.Sleep((vcBoundMs + 1) * time.Millisecond)
 	synctest.Wait()
-	return s.render()
+	res := s.render()
+	// the session is over and judged: dials that never returned are given up so that the bubble can wind down
+	for _, l := range []string{"A", "B"} {
+		n := s.ag[l].net
+		n.mu.Lock()
+		pending := n.ndial > 0
+		n.mu.Unlock()
+		if pending {
+			close(n.dialHold)
+			synctest.Wait()
+			time.Sleep(time.Millisecond)
+			synctest.Wait()
+		}
+	}
+	return res
 }
 
 
@@ -956,6 +1288,14 @@ func vcDump(tag string) {
 // 3 s (the violation is established), and the generator stops after three.
 var vcAlarms int
 
+// vcCov: coverage counters of the run (op `coverage`).
+var (
+	vcCovMu sync.Mutex
+	vcCov   = map[string]int{}
+)
+
+func vcCovAdd(k string) { vcCovMu.Lock(); vcCov[k]++; vcCovMu.Unlock() }
+
 // vcSkipped counts closers not started because an earlier one hangs (see stuckCloser).
 var vcSkipped int
 
@@ -1005,6 +1345,14 @@ func vcSend(toks []string) (res string) {
 func vcExec(o *vOut, t []string) string {
 	if len(t) < 2 {
 		return "bad-op"
+	}
+	if t[1] == "coverage" {
+		if vcIn != nil {
+			vcEnd()
+		}
+		vcCovMu.Lock()
+		defer vcCovMu.Unlock()
+		return fmt.Sprintf("cov:connected=%d;writeparked=%d;tcpfull=%d;relaystalled=%d", vcCov["connected"], vcCov["writeparked"], vcCov["tcpfull"], vcCov["relaystalled"])
 	}
 	if t[1] == "r1" && len(t) > 2 {
 		if vcIn != nil {
